@@ -231,7 +231,8 @@ static int run_one (OrcProgram *p, ProgSpec *ps, RunCfg *rc, VResult *r)
   v_stage (r, "reference");
   if (ref_compare (ps, rc, &run, &pristine, &ex, msg, sizeof msg)) {
     char sig[V_SIG_MAX];
-    snprintf (sig, sizeof sig, "semantics op=%s", msg[0] == 'i' ? ps->ins[atoi (msg + 5)].op->name : ps->ins[0].op->name);
+    snprintf (sig, sizeof sig, "semantics%s op=%s", ps->const_two_lanes ? "-const-two-lane-sizes" : "",
+        msg[0] == 'i' ? ps->ins[atoi (msg + 5)].op->name : ps->ins[0].op->name);
     v_fail (r, sig, "emulation != reference: %s", msg);
     bad = 1;
   } else if (arena_check_untouched (&run, ps, rc, msg, sizeof msg)) {
